@@ -866,6 +866,8 @@ func init() {
 			part{name: "u_c05sim", gen: genC05Sim, monitors: []Monitor{mon}, labels: commonLabels, nontrivial: nt, quick: 30, thorough: 1000},
 		)
 	}
+	addParts("C13", part{name: "u_srvdeadline", gen: genMixedSrvDeadline, monitors: []Monitor{monC13}, labels: commonLabels, nontrivial: ntMultiRPC, quick: 250, thorough: 8000})
+	addParts("C14", part{name: "u_srvdeadline", gen: genMixedSrvDeadline, monitors: []Monitor{monC14}, labels: commonLabels, nontrivial: ntAbnormalEnd, quick: 250, thorough: 8000})
 	union("C13", monC13, ntMultiRPC)
 	union("C14", monC14, ntAbnormalEnd)
 	addParts("C14", part{name: "u_c12win", gen: genC12Win, monitors: []Monitor{monC14}, labels: labelsC12Win, nontrivial: ntC12Win, quick: 600, thorough: 20000})
